@@ -141,14 +141,17 @@ func (c *context) SendMsg(m *protocol.Message) error {
 	}
 	oldsurv := c.surv
 	newsurv.start(c.recvQLen, c.survExpire)
-	if oldsurv != nil {
-		go oldsurv.cancel(protocol.ErrCanceled)
-	}
 	pipes := make([]*pipe, 0, len(s.pipes))
 	for _, p := range s.pipes {
 		pipes = append(pipes, p)
 	}
 	s.Unlock()
+
+	// The survey we replace is abandoned before the new one goes out, so
+	// that a receiver still waiting on it cannot be handed a late response.
+	if oldsurv != nil {
+		oldsurv.cancel(protocol.ErrCanceled)
+	}
 
 	// Best-effort broadcast on all pipes
 	for _, p := range pipes {
